@@ -374,7 +374,7 @@ class ComposedNode(ConfigNode):
         ret['implicit_delete'] = notnone_or(self._delete, notnone_or(self._implicit_delete, self._default_delete or None))
         ret['implicit_allow_new'] = notnone_or(self._allow_new, self._implicit_allow_new)
         if child is None or getattr(child, '_implicit_safe') is not False: # do not set "implicit_safe" arg if the child exists and already has it set to False (note: I think it's not strictly necessary to handle it here since other checks would still prevent changes)
-            ret['implicit_safe'] = notnone_or(self._safe, self._implicit_safe)
+            ret['implicit_safe'] = False if self._implicit_safe is False else notnone_or(self._safe, self._implicit_safe)
         return ret
 
     def _propagate_implicit_values(self):
